@@ -10,7 +10,37 @@ var Mutants = []*core.Mutant{
 	{Name: "numbirth-canon-noguard", Rule: "R-NUMBIRTH", File: "vm.go",
 		Old: "	if i, ok := floatToInt(f); ok {\n		return intToValue(i)\n	}\n	switch {\n	case f == 0:", New: "	switch {\n	case f == 0:",
 		Expect: "floatToValue", Why: "the canonicaliser itself stops canonicalising"},
+	{Name: "trypair-try-nodefer", Rule: "R-TRYPAIR", File: "vm.go",
+		Old: "	vm.pushTryFrame(tryPanicMarker, -1)\n	defer vm.popTryFrame()\n\n	defer func() {\n		if x := recover(); x != nil {\n			ex = vm.handleThrow(x)\n		}\n	}()\n\n	f()\n	return",
+		New: "	vm.pushTryFrame(tryPanicMarker, -1)\n\n	defer func() {\n		if x := recover(); x != nil {\n			ex = vm.handleThrow(x)\n		}\n	}()\n\n	f()\n	vm.popTryFrame()\n	return",
+		Expect: "(*vm).try:marker-frame", Why: "marker frame of vm.try popped only on the normal path"},
+	{Name: "trypair-gen-next-nodefer", Rule: "R-TRYPAIR", File: "func.go",
+		Old: "	g.enterNext()\n	defer g.vm.popTryFrame()\n	if v != nil {\n		g.vm.push(v)\n	}\n	res, done, ex := g.step()\n	g.vm.popCtx()",
+		New: "	g.enterNext()\n	if v != nil {\n		g.vm.push(v)\n	}\n	res, done, ex := g.step()\n	g.vm.popTryFrame()\n	g.vm.popCtx()",
+		Expect: "(*generator).next:marker-frame", Why: "F2 re-introduced: interrupt inside a generator body leaves the runtime unusable"},
+	{Name: "trypair-inplace-noskip", Rule: "R-TRYPAIR", File: "vm.go",
+		Old: "(tf.catchPos != tryPanicMarker || tf.finallyRet == -2)", New: "(tf.catchPos != tryPanicMarker)",
+		Expect: "in-place-marker", Why: "stack overflow inside a finally block run by generator return() leaks a frame"},
+	{Name: "boundary-runwrapped-noleaveabrupt", Rule: "R-BOUNDARY", File: "runtime.go",
+		Old: "				err = ex\n				if len(r.vm.callStack) == 0 {\n					r.leaveAbrupt()\n				}", New: "				err = ex",
+		Expect: "runWrapped:abrupt", Why: "interrupt during a Callable leaves the flag set and the jobs queued"},
+	{Name: "boundary-leaveabrupt-keepjobs", Rule: "R-BOUNDARY", File: "runtime.go",
+		Old: "	r.jobQueue = nil\n	r.ClearInterrupt()", New: "	r.ClearInterrupt()",
+		Expect: "leaveAbrupt:jobQueue", Why: "jobs of an interrupted run execute during the next call"},
+	{Name: "boundary-runprogram-leave-always", Rule: "R-BOUNDARY", File: "runtime.go",
+		Old: "		vm.prg = nil\n		vm.sb = -1\n		r.leave()\n	}\n	return", New: "		vm.prg = nil\n		vm.sb = -1\n	}\n	return",
+		Expect: "RunProgram:normal", Why: "promise jobs never drained after RunProgram"},
+	{Name: "ctxfields-restore-privenv", Rule: "R-CTXFIELDS", File: "vm.go",
+		Old: "	vm.prg, vm.stash, vm.privEnv, vm.newTarget, vm.result, vm.pc, vm.sb, vm.args =\n		ctx.prg, ctx.stash, ctx.privEnv, ctx.newTarget, ctx.result, ctx.pc, ctx.sb, ctx.args",
+		New: "	vm.prg, vm.stash, vm.newTarget, vm.result, vm.pc, vm.sb, vm.args =\n		ctx.prg, ctx.stash, ctx.newTarget, ctx.result, ctx.pc, ctx.sb, ctx.args",
+		Expect: "context.privEnv:restoreCtx", Why: "private environment of the callee leaks into the caller"},
+	{Name: "ctxfields-suspend-refstack", Rule: "R-CTXFIELDS", File: "vm.go",
+		Old: "	if len(vm.refStack) > int(refStackLen) {\n		ectx.refStack = append(ectx.refStack[:0], vm.refStack[refStackLen:]...)\n		vm.refStack = vm.refStack[:refStackLen]\n	}\n", New: "",
+		Expect: "execCtx.refStack:suspend", Why: "references pending across a yield leak into the caller"},
+	{Name: "ctxfields-resume-sp", Rule: "R-CTXFIELDS", File: "vm.go",
+		Old: "		tf.sp += int32(sp)\n", New: "",
+		Expect: "tryFrame.sp:rebase", Why: "catch after resumption at a different depth restores the wrong sp"},
 }
 
 // Extra are rules that are not (yet) attached to a property (debug / evidence only).
-var Extra = []*core.Rule{}
+var Extra = []*core.Rule{TryPair, CtxFields, Boundary}
